@@ -94,6 +94,7 @@ func (w *_watcher) run() {
 	var curVersion string
 
 	var retry *time.Timer
+	retrych := make(chan string)
 
 mainloop:
 	for {
@@ -117,13 +118,26 @@ mainloop:
 			outch = make(chan Event, EventBufsiz)
 			curVersion = vsn
 
+		case vsn := <-retrych:
+			if retry == nil {
+				// stale retry: a reset has started a new session since
+				continue
+			}
+			w.log.Debugf("retrying version %v", vsn)
+			retry = nil
+
+			// keep outch: the consumer is selecting on it and may not have
+			// drained events that were received before the session ended.
+			session.stop()
+			session = newWatchSession(ctx, w.log, w.client, vsn)
+			curVersion = vsn
+
 		case <-session.done():
 			w.log.Debugf("session done.  retrying version %v in %v", curVersion, watchRetryDelay)
 
 			session.stop()
 			session = nullWatchSession{}
-			outch = nil
-			retry = w.scheduleRetry(w.resetch, curVersion)
+			retry = w.scheduleRetry(retrych, curVersion)
 
 		case evt := <-session.events():
 
